@@ -465,6 +465,27 @@ fn search_strides(ctx: &mut Ctx) {
         }
         if ctx.full() { return; }
     } } } }
+    // long lines that have not ended yet, with a byte that already decides the outcome somewhere in them (an "optimisation" that
+    // postpones validation until the line end arrives), and long heads that are complete
+    ctx.gen = "long-unterminated";
+    for &total in &[60usize, 300, 511, 512, 513, 600, 1100, 2100, 4095, 4096, 4097, 5000, 9000] {
+        for &p in &[0usize, 1, 17, total / 2, total - 2, total - 1] { for &bad in &[0x00u8, 0x01, 0x7f, b'\r'] {
+            let mut v = pad(b'v', total); v[p] = bad; if bad == b'\r' && p + 1 < total { v[p + 1] = b'x'; }
+            let mut h = b"Host: a\r\nN: ".to_vec(); h.extend(&v);
+            check_headers(ctx, &h, 4);
+            let mut m = b"GET / HTTP/1.1\r\n".to_vec(); m.extend(&h); check_request(ctx, &m, 0, 4); check_request(ctx, &m, 64, 4);
+            let mut r = b"HTTP/1.1 200 OK\r\n".to_vec(); r.extend(&h); check_response(ctx, &r, 0, 4); check_response(ctx, &r, 2 + 32, 4);
+            let mut n = pad(b'n', total); n[p] = if bad == b'\r' { b' ' } else { bad };
+            let mut hn = b"Host: a\r\n".to_vec(); hn.extend(&n); check_headers(ctx, &hn, 4);
+            let mut t = b"GET /".to_vec(); t.extend(pad(b'a', total)); let tl = t.len(); t[tl - total + p] = if bad == b'\r' { b'\t' } else { bad }; check_request(ctx, &t, 0, 1);
+            let mut c = b"1f;".to_vec(); c.extend(pad(b'e', total)); let cl = c.len(); c[cl - total + p] = if bad == b'\r' { b'\r' } else { b'\n' }; c.push(b'z'); check_chunk(ctx, &c);
+            if ctx.full() { return; }
+        } }
+        // too many complete header lines in a long block without its final empty line
+        let mut many = vec![]; while many.len() < total { many.extend_from_slice(b"A: b\r\n"); }
+        check_headers(ctx, &many, 3);
+        let mut m = b"GET / HTTP/1.1\r\n".to_vec(); m.extend(&many); check_request(ctx, &m, 0, 3);
+    }
     ctx.gen = "fold-lengths";
     for l1 in 0..72usize { for l2 in 0..40usize { for &t in &[0usize, 1, 8, 31, 32, 64] { for eol in [&b"\r\n"[..], b"\n"] {
         let mut m = b"HTTP/1.1 200 OK\r\nX: ".to_vec(); m.extend(pad(b'a', l1)); m.extend_from_slice(eol); m.push(b' '); m.extend(pad(b'b', l2)); m.extend_from_slice(eol); m.extend_from_slice(eol);
